@@ -113,6 +113,24 @@ def run_detector(samples, ratios, law, labels="0..n-1"):
     return det, rec
 
 
+def run_two_detectors_alternately(samples, ratios, law, labels="0..n-1"):
+    """Two detector / recorder pairs alive at once: A gets the sequence, B its mirror image, the passes alternate
+    (first A, first B, second A, second B).  Returns A's pair: it must be what A reports alone (state kept on a class or
+    in the module instead of the objects would leak between them)."""
+    from pylife.stress.rainflow.fkm_nonlinear import FKMNonlinearDetector
+    from pylife.stress.rainflow.recorders import FKMNonlinearRecorder
+    pairs = []
+    for sgn in (1, -1):
+        rec = FKMNonlinearRecorder()
+        pairs.append((FKMNonlinearDetector(recorder=rec, notch_approximation_law=law), rec,
+                      make_signal([sgn * x for x in samples], ratios, labels)))
+    for d, _r, sig in pairs:
+        d.process_hcm_first(sig)
+    for d, _r, sig in pairs:
+        d.process_hcm_second(sig)
+    return pairs[0][0], pairs[0][1]
+
+
 def collective_rows(rec, n_nodes):
     """List of hystereses, each a dict column -> list over nodes."""
     col = rec.collective
